@@ -145,6 +145,13 @@ static inline double xc_ldexp(double x, int e)
 extern unsigned long g_deleted;
 static inline void xc_delete(void *p) { g_deleted++; free(p); }
 
+/* new T(args) / new T[n]: malloc + construction. The element loop of XC_NEW_ARRAY has no loop contract: units that reach it
+ * are bounded stand-ins (unwinding) or replace the allocating function by a contract. */
+#define XC_NEW(T, init) ({ T *xc_p = (T *)malloc(sizeof(T)); __CPROVER_assume(xc_p != NULL); *xc_p = (init); xc_p; })
+#define XC_NEW_ARRAY(T, n, init) ({ size_t xc_n = (n); T *xc_p = (T *)malloc(xc_n * sizeof(T)); __CPROVER_assume(xc_p != NULL); \
+   for (size_t xc_i = 0; xc_i < xc_n; xc_i++) xc_p[xc_i] = (init); xc_p; })
+static inline char *xc_new_chars(size_t n) { char *p = (char *)malloc(n); __CPROVER_assume(p != NULL); return p; }
+
 /* an object the extracted code only passes around */
 typedef struct xc_opaque { char xc_unused; } xc_opaque;
 
